@@ -294,24 +294,33 @@ def strJustified (fs : List Field) (s : Schema) (field : String) (mn mx : Int) (
      | none => false)
   | none => false
 
-def sliceElemOK : GoTy → Bool
-  | .slice t => (match t with | .named _ => false | .int .u8 => false | _ => true)
+/-- element types whose slices decode element by element: everything but `uint8` and named aliases of it, whose
+    slices are byte strings (K22) -/
+def elemOK (env : Env) : GoTy → Bool
+  | .named n => (match env.resolve 8 n with
+      | some d => (match d.ty with | .int .u8 => false | _ => true)
+      | none => true)
+  | .int .u8 => false
+  | _ => true
+
+def sliceElemOK (env : Env) : GoTy → Bool
+  | .slice t => elemOK env t
   | _ => false
 
-def arrJustified (fs : List Field) (s : Schema) (field : String) (mn mx : Int) : Bool :=
+def arrJustified (env : Env) (fs : List Field) (s : Schema) (field : String) (mn mx : Int) : Bool :=
   match fs.find? (fun fl => fl.name = field) with
   | some fl => (match alookup fl.jsonKey s.node.props with
-     | some ps => ps.node.ref == "" && sliceElemOK fl.ty && ps.node.types == ["array"] &&
+     | some ps => ps.node.ref == "" && sliceElemOK env fl.ty && ps.node.types == ["array"] &&
          decide (mn = ps.node.minItems) && decide (mx = ps.node.maxItems) && decide (0 ≤ mx)
      | none => false)
   | none => false
 
 /-- every validator of the struct is what the schema asks for -/
-def valJustified (fs : List Field) (s : Schema) : Validator → Bool
+def valJustified (env : Env) (fs : List Field) (s : Schema) : Validator → Bool
   | .required k => s.node.required.contains k
   | .numeric field nl c => field != "" && numJustified fs s field nl c
   | .string field mn mx pat nl => field != "" && strJustified fs s field mn mx pat nl
-  | .array field depth mn mx => field != "" && depth == 1 && arrJustified fs s field mn mx
+  | .array field depth mn mx => field != "" && depth == 1 && arrJustified env fs s field mn mx
   | _ => false
 
 /-- `certFull` plus string members with length limits / patterns and array members with item counts -/
@@ -333,7 +342,7 @@ def certAll (env : Env) (defs : Spec.Defs) : Nat → GoTy → Schema → Bool
                 !s.node.hasNot && s.node.addl.isNone &&
                 (fs.find? (fun fl => fl.name = "AdditionalProperties")).isNone &&
                 decide (fs.length ≤ 31) && decide ((fs.map (·.name)).Nodup) && decide ((fs.map (·.jsonKey)).Nodup) &&
-                vs.all (valJustified fs s) &&
+                vs.all (valJustified env fs s) &&
                 fs.all (fun fl => (akeys s.node.props).contains fl.jsonKey) &&
                 s.node.props.all (fun p => match bindKey fs p.1 with
                   | some fld => fld.jsonKey == p.1 && certAll env defs f fld.ty p.2
@@ -342,7 +351,7 @@ def certAll (env : Env) (defs : Spec.Defs) : Nat → GoTy → Schema → Bool
          | none => false)
       | .slice t =>
         s.node.types == ["array"] && s.node.enum.isNone && s.node.allOf.isEmpty && s.node.anyOf.isEmpty && !s.node.hasNot &&
-        (match t with | .named _ => false | .int .u8 => false | _ => true) &&
+        elemOK env t &&
         (match s.node.items with | some it => certAll env defs f t it | none => false)
       | .string => s.node.types == ["string"] && s.node.format == ""
       | .bool => s.node.types == ["boolean"]
